@@ -163,3 +163,30 @@ def quadMesh (x0 y0 x1 y1 x2 y2 x3 y3 : Rat) : Mesh :=
     idxData := [[], [[[0, 1], [2, 3], [0, 2], [1, 3]]], [[[0, 1, 2, 3]], [[0, 1, 2, 3]]]] }
 
 end FeatModel.Refine
+
+namespace FeatModel.Refine
+
+/-- Jacobian determinant of the bilinear map of the quadrilateral `t` at its corner `k` -/
+def quadJac (M : Mesh) (t : List Nat) (k : Nat) : Rat :=
+  let x := fun j => coord M (t.getD j 0) 0
+  let y := fun j => coord M (t.getD j 0) 1
+  match k with
+  | 0 => (x 1 - x 0) * (y 2 - y 0) - (x 2 - x 0) * (y 1 - y 0)
+  | 1 => (x 1 - x 0) * (y 3 - y 1) - (x 3 - x 1) * (y 1 - y 0)
+  | 2 => (x 3 - x 2) * (y 2 - y 0) - (x 2 - x 0) * (y 3 - y 2)
+  | _ => (x 3 - x 2) * (y 3 - y 1) - (x 3 - x 1) * (y 3 - y 2)
+
+/-- six times the signed volume of the straight tetrahedron with the vertex tuple `t` -/
+def tetVol6 (M : Mesh) (t : List Nat) : Rat :=
+  let p := fun j d => coord M (t.getD j 0) d - coord M (t.getD 0 0) d
+  p 1 0 * (p 2 1 * p 3 2 - p 2 2 * p 3 1) - p 1 1 * (p 2 0 * p 3 2 - p 2 2 * p 3 0)
+    + p 1 2 * (p 2 0 * p 3 1 - p 2 1 * p 3 0)
+
+/-- one tetrahedron with arbitrary vertex coordinates (edges and faces in their reference orientation) -/
+def tetMesh (v : List (List Rat)) : Mesh :=
+  { kind := .simplex, dim := 3, nums := [4, 6, 4, 1], verts := v,
+    idxData := [[], [[[0, 1], [0, 2], [0, 3], [1, 2], [1, 3], [2, 3]]],
+      [[[1, 2, 3], [0, 2, 3], [0, 1, 3], [0, 1, 2]], [[5, 4, 3], [5, 2, 1], [4, 2, 0], [3, 1, 0]]],
+      [[[0, 1, 2, 3]], [[0, 1, 2, 3, 4, 5]], [[0, 1, 2, 3]]]] }
+
+end FeatModel.Refine
